@@ -491,12 +491,16 @@ impl<TStdlib: Stdlib, TStdIn: Input, TStdOut: Printer, TLpt1: Printer>
             Instruction::BuiltInSub(s) => {
                 // the stacktrace should be already populated by Instruction::PushStack
                 debug_assert!(!self.stacktrace.is_empty());
-                super::built_ins::run_sub(s, self).with_stacktrace(&mut self.stacktrace)?;
+                if let Err(e) = super::built_ins::run_sub(s, self) {
+                    return Err(self.leave_failed_built_in(e));
+                }
             }
             Instruction::BuiltInFunction(f) => {
                 // the stacktrace should be already populated by Instruction::PushStack
                 debug_assert!(!self.stacktrace.is_empty());
-                super::built_ins::run_function(f, self).with_stacktrace(&mut self.stacktrace)?;
+                if let Err(e) = super::built_ins::run_function(f, self) {
+                    return Err(self.leave_failed_built_in(e));
+                }
             }
             Instruction::Label(_) => (), // no-op
             Instruction::Halt => {
@@ -641,6 +645,16 @@ impl<TStdlib: Stdlib, TStdIn: Input, TStdOut: Printer, TLpt1: Printer>
             }
         }
         Ok(())
+    }
+
+    /// Leaves the context and the stacktrace entry of a built-in sub or
+    /// function that failed. The `PopStack` instruction that would normally
+    /// do this will not be reached, but the program might continue if an error
+    /// handler is active.
+    fn leave_failed_built_in(&mut self, e: RuntimeError) -> RuntimeErrorPos {
+        self.context.pop();
+        let pos = self.stacktrace.remove(0);
+        RuntimeErrorPos::new(e, pos)
     }
 
     fn choose_printer(&mut self) -> &mut dyn Printer {
